@@ -8,7 +8,7 @@ cargo build --offline --quiet --target-dir target/nostd --no-default-features
 cargo build --offline --quiet --target-dir target/serde --features with_serde
 RUSTFLAGS="--check-cfg cfg(helgoboss_midi_verif)" cargo build --offline --quiet --target-dir target/nohook
 cd /verif/spec
-for m in TraceWorld Tables PnRun PollRun mc/MC_Cc14 mc/MC_Pn mc/MC_Poll mc/MC_Sender mc/MC_Iso mc/MC_ShortMsg mc/MC_Ints mc/MC_PnMsg mc/MC_MidiSystem; do
+for m in TraceWorld Tables PnRun PollRun mc/MC_Cc14 mc/MC_Pn mc/MC_Poll mc/MC_Sender mc/MC_Iso mc/MC_ShortMsg mc/MC_Ints mc/MC_PnMsg mc/MC_MidiSystem mc/MC_Brackets; do
   d=$(mktemp -d /verif/work/sany.XXXXXX); cp /verif/spec/*.tla /verif/spec/mc/*.tla $d/
   (cd $d && JAVA_TOOL_OPTIONS=-Djava.io.tmpdir=$d tla-sany $(basename $m).tla > sany.log 2>&1) || { cat $d/sany.log; exit 1; }
   rm -rf $d
